@@ -1,4 +1,2 @@
 SPECIFICATION CSpec
-CONSTANTS
-  Range = {-2, -1, 0, 1, 2}
 CHECK_DEADLOCK FALSE
